@@ -26,7 +26,9 @@ RULE = ('programs over real fsic objects: a class (VectorContainer; parser-built
         'appends and pops on check/endogenous/_attributes/preferred_names/user lists, aliases dict, add_attribute with '
         'NESTED values (list, dict, nested list, tuple of lists, namedtuple holding a dict, tuple of ndarrays, dict of '
         'lists) and in-place edits of their inner lists / dicts / arrays, linkers built with DEFAULT arguments '
-        '(`Linker()`, submodels stored by the caller afterwards), '
+        '(`Linker()`, submodels stored by the caller afterwards), reads through names (failed look-ups included) and '
+        'run-time edits of the INSTANCE aliases dict (re-point / add / remove), variables named like class members '
+        '(size, copy, eval, nbytes, LAGS, CODE, …) and underscore twins (`Y` and `_Y`), '
         'trace_t, class-level list mutations, the same through submodels, and RE-SYNCHRONISATION: a whole variable '
         'assigned from ANOTHER object of the class (copy / sibling / submodel) as attribute, string key, replace_values, '
         '`values`, view, astype, list, tolist) with copies by all three routes at random '
@@ -34,7 +36,10 @@ RULE = ('programs over real fsic objects: a class (VectorContainer; parser-built
         'contents of real objects == model, after every copy and at the end. S: twin runs — every mutable object '
         'reachable from one side is mutated generically (list append, dict insert, array element write, attribute '
         'rebinding) plus API-level mutations (values, add_variable, add_attribute, lags, solve, trace), each followed by '
-        'a comparison of the full observable state of the other side; the same again AFTER re-synchronising the two sides '
+        'a comparison of the full observable state of the other side; observational equality of a copy is also checked '
+        'as BEHAVIOUR (the same answers to every read through every name / alias / undefined name, and the same state '
+        'after the same writes through every name), plainly and after names were used and the instance aliases then '
+        'edited; the same twin runs again AFTER re-synchronising the two sides '
         '(every variable assigned as a whole from the other side, either direction, 9 spellings; then element / '
         'period / slice assignment, solve, solve_t, generic array writes); pairs = (original, copy) for each route, '
         '(instance, sibling), (instance, class), both directions; plus sibling pairs / instance-vs-class for EVERY '
@@ -165,6 +170,7 @@ def gen_case(rng):
             s['lists'] += [['check'], ['endogenous']]
         if spec.get('alias'):
             s['lists'].append(['preferred_names'])
+            s['akeys'] = list(spec.get('aliases') or {})
 
     new_inst('a', main)
     new_inst('b', main)
@@ -208,6 +214,9 @@ def gen_case(rng):
         choices = ['addVariable', 'addAttrList', 'addAttrImm', 'append', 'append', 'setAttrImm', 'buildAttr', 'buildAttr']
         if s.get('dicts'):
             choices += ['dictSetAttr']
+        if spec.get('alias'):
+            # names are used (also unsuccessfully) and the INSTANCE's aliases are re-pointed / added / removed at run time
+            choices += ['useName', 'useName', 'aliasEdit', 'aliasEdit']
         if s.get('arrays'):
             choices += ['setAt']
         nn_ = s.get('n', n)
@@ -253,6 +262,24 @@ def gen_case(rng):
             s.setdefault('dicts', []).extend(inner['dict'])
             s.setdefault('arrays', []).extend(inner['array'])
             return {'o': 'buildAttr', 'x': x, 'shape': shape, 'spec': spec_, 'nodes': nodes}
+        if o == 'useName':
+            pool = list(s.get('akeys', [])) + list(s['vars']) + ['UNDEF1', 'GDP'] + list(s.get('removed', []))
+            return {'o': 'useName', 'x': rng.choice(pool), 'how': rng.choice(['item', 'attr', 'contains'])}
+        if o == 'aliasEdit':
+            akeys = s.setdefault('akeys', [])
+            what = rng.choice(['repoint', 'add', 'remove'])
+            if what == 'remove' and len(akeys) > 1:
+                k = rng.choice(akeys)
+                akeys.remove(k)
+                s.setdefault('removed', []).append(k)
+                return {'o': 'dictDel', 'f': ['aliases'], 'k': k, 'edit': 'remove'}
+            target = rng.choice(s['vars']) if s['vars'] else 'A0'
+            if what == 'repoint' and akeys:
+                return {'o': 'dictSet', 'f': ['aliases'], 'k': rng.choice(akeys), 'v': target, 'edit': 'repoint'}
+            k = rng.choice(['UNDEF1', 'GDP', fresh_name('AL')])
+            if k not in akeys:
+                akeys.append(k)
+            return {'o': 'dictSet', 'f': ['aliases'], 'k': k, 'v': target, 'edit': 'add'}
         if o == 'dictSetAttr':
             return {'o': 'dictSet', 'f': rng.choice(s['dicts']), 'k': fresh_name('dk'), 'v': 'val'}
         if o == 'setAt':
@@ -263,6 +290,19 @@ def gen_case(rng):
             return {'o': 'rebind', 'x': rng.choice(s['vars']), 'n': nn_}
         if o == 'addVariable':
             x = fresh_name('V')
+            # name pools: class-member-like names and underscore twins of existing variables
+            taken = set(s['vars'])
+            u = rng.random()
+            if u < 0.2:
+                free = [m_ for m_ in ['size', 'copy', 'eval', 'nbytes', 'LAGS', 'CODE', 'reindex', 'solve_t',
+                                      'to_dataframe'] if m_ not in taken
+                        and not (s['kind'] == 'linker' and m_ == 'LAGS')]   # a linker stores `_LAGS` itself
+                if free:
+                    x = rng.choice(free)
+            elif u < 0.35 and s['vars']:
+                cand = '_' + rng.choice(s['vars'])
+                if cand not in taken and not cand.startswith('__'):
+                    x = cand
             s['vars'].append(x)
             return {'o': 'addVariable', 'x': x, 'n': nn_, 'model': s['kind'] != 'container'}
         if o == 'addAttrList':
@@ -558,6 +598,107 @@ def twin(rep, relation, mutated_name, mutated, observed_name, observed, case, re
     return n
 
 
+PROBE_NAMES = ['UNDEF1', 'GDP', 'AL1', 'AL2', 'AA', 'TT', 'A0']
+
+
+def canon_value(v):
+    if isinstance(v, np.ndarray) and v.dtype != object:
+        return ('array', str(v.dtype), v.shape, v.tobytes())
+    return hc.observe(v)
+
+
+def name_pool(x):
+    pool = [v for v in x.__dict__.get('index', []) if isinstance(x.__dict__.get('_' + v), np.ndarray)
+            and x.__dict__['_' + v].dtype != object]
+    pool += [k for k in getattr(x, 'aliases', {}) if isinstance(k, str)]
+    pool += PROBE_NAMES
+    seen, out = set(), []
+    for n_ in pool:
+        if n_ not in seen:
+            seen.add(n_)
+            out.append(n_)
+    return out
+
+
+def probe_reads(x, names):
+    """What the object answers to every public read through every name (value, or the class of the exception)."""
+    out = []
+    for nm in names:
+        for how in ('item', 'attr', 'contains'):
+            try:
+                with warnings.catch_warnings():
+                    warnings.simplefilter('ignore')
+                    v = x[nm] if how == 'item' else getattr(x, nm) if how == 'attr' else (nm in x)
+                out.append((nm, how, 'ok', canon_value(v)))
+            except Exception as e:   # noqa: BLE001
+                out.append((nm, how, 'raise', type(e).__name__))
+    return out
+
+
+def probe_writes(x, names):
+    out = []
+    for i, nm in enumerate(names):
+        for how in ('item', 'replace_values'):
+            try:
+                if how == 'item':
+                    x[nm] = 1.5 * (i + 1)
+                else:
+                    x.replace_values(**{nm: 2.5 * (i + 1)})
+                out.append((nm, how, 'ok'))
+            except Exception as e:   # noqa: BLE001
+                out.append((nm, how, type(e).__name__))
+    return out
+
+
+def behaviour_equal(rep, case, what, a, b, history=None):
+    """Observational equality as behaviour: the same answers to every read through every name, and — after the same
+    writes through every name on both — the same state.  (State outside `__dict__`, e.g. a per-object cache of what
+    a name meant when it was first used, shows up here and nowhere else.)"""
+    n = 0
+    pairs = [(a, b, '')]
+    if isinstance(a, BaseLinker) and isinstance(b, BaseLinker):
+        pairs += [(a.submodels[k], b.submodels[k], f'.submodels[{k}]') for k in a.submodels if k in b.submodels]
+    for x, y, where in pairs:
+        names = name_pool(x)
+        ra, rb = probe_reads(x, names), probe_reads(y, names)
+        n += len(ra)
+        if ra != rb:
+            d = [(p[0], p[1], p[2], q[2]) for p, q in zip(ra, rb) if p != q][:4]
+            violate(rep, 'copy-behaves-differently:read', f'{what}{where}: the same reads are answered differently by '
+                    f'original and copy (name, access, original, copy): {d}', dict(case, behaviour=[what, history]))
+        wa, wb = probe_writes(x, names), probe_writes(y, names)
+        n += len(wa)
+        if wa != wb or hc.observe(x) != hc.observe(y):
+            fields = sorted({top_field(p) for p in hc.diff_paths(hc.observe(x), hc.observe(y))})
+            d = [(p, q) for p, q in zip(wa, wb) if p != q][:4]
+            violate(rep, 'copy-behaves-differently:after-writes', f'{what}{where}: after the same writes through every '
+                    f'name original and copy differ in {fields} {d}', dict(case, behaviour=[what, history]))
+    return n
+
+
+def alias_edit_history(x):
+    """Names are used once (failed look-ups included), THEN the instance's `aliases` are re-pointed / extended /
+    reduced at run time."""
+    done = []
+    fl = [v for v in x.__dict__['index'] if isinstance(x.__dict__.get('_' + v), np.ndarray)
+          and x.__dict__['_' + v].dtype.kind == 'f']
+    for nm in list(x.aliases) + ['UNDEF1', 'GDP'] + fl[:2]:
+        for how in ('item', 'attr', 'contains'):
+            hc.apply_op(x, {'o': 'useName', 'x': nm, 'how': how})
+    keys = list(x.aliases)
+    if fl:
+        if keys:
+            cur = x.aliases[keys[0]]
+            x.aliases[keys[0]] = next((v for v in fl if v != cur), fl[0])
+            done.append('repoint')
+        x.aliases['UNDEF1'] = fl[-1]
+        done.append('add')
+    if len(keys) > 1:
+        del x.aliases[keys[-1]]
+        done.append('remove')
+    return done
+
+
 RESYNC_FORMS = ['attr', 'item', 'replace_values', 'values', 'view', 'astype', 'list', 'tolist-item', 'scalar']
 AFTER_RESYNC = ('api:setitem-label', 'api:iadd-slice', 'api:solve', 'api:solve_t', 'api:status', 'api:iterations',
                 'api:setattr-scalar', 'api:setitem')
@@ -699,6 +840,16 @@ def oracle_(rep, case, prep=None, forms=None):
                 fields = sorted({top_field(p) for p in hc.diff_paths(a, b)})
                 violate(rep, 'copy-not-equal:' + ','.join(fields), f'{route}: copy differs from original in {fields}',
                             dict(case, pair=['copy', src, route]))
+            o2, c2 = rebuild()
+            evaluations += behaviour_equal(rep, case, f'{route}({src})', o2, c2)
+            w3 = world()
+            o3 = w3.roots[src]
+            targets = [o3] + (list(o3.submodels.values()) if isinstance(o3, BaseLinker) else [])
+            hist = [alias_edit_history(t) for t in targets if isinstance(t, AliasMixin)]
+            if hist:
+                rep.dist['oracle:alias-edit-then-copy'] += 1
+                evaluations += behaviour_equal(rep, case, f'{route}({src})', o3, hc.COPY_ROUTES[route](o3),
+                                               history='names used, then instance aliases edited: ' + str(hist))
             evaluations += twin(rep, 'copy', f'{src}', orig, f'{route}({src})', cp, case, rebuild)
             evaluations += twin(rep, 'copy', f'{route}({src})', cp, src, orig, case,
                                 lambda src=src, route=route: rebuild(src, route, True))
@@ -796,7 +947,7 @@ def first_difference(model, real, cross=False):
 
 def run(ctx, rep):
     n_prog = (400 if ctx.tier == 'quick' else 5000) * ctx.scale
-    n_oracle = (70 if ctx.tier == 'quick' else 1500) * ctx.scale
+    n_oracle = (55 if ctx.tier == 'quick' else 1200) * ctx.scale
     rng = ctx.sub_rng('programs')
     batch = []
     for i in range(n_prog):
@@ -828,6 +979,14 @@ def run(ctx, rep):
                         rep.dist['assign-from-other:' + inner['via']] += 1
                     if inner['o'] == 'assignValues':
                         rep.dist['assign-from-other:values'] += 1
+                    if inner['o'] == 'addVariable':
+                        nm_ = inner['x']
+                        rep.dist['variable-name:' + ('underscore-twin' if nm_.startswith('_') else 'plain'
+                                                     if nm_.startswith('V') and nm_[1:].isdigit() else 'member-like')] += 1
+                    if inner['o'] == 'useName':
+                        rep.dist['use-name:' + inner['how']] += 1
+                    if inner.get('edit'):
+                        rep.dist['instance-aliases-edit:' + inner['edit']] += 1
                     if inner['o'] == 'buildAttr':
                         rep.dist['attribute-shape:' + inner['shape']] += 1
                 if cmd['c'] == 'subadd':
@@ -1086,7 +1245,8 @@ def replay(ctx, rep, case):
             CAP[0] = 6
         for v in tmp.violations:
             same = (v['case'].get('pair') == case.get('pair') and v['case'].get('mutation') == case.get('mutation')
-                    and v['case'].get('resync') == case.get('resync'))
+                    and v['case'].get('resync') == case.get('resync')
+                    and (v['case'].get('behaviour') or [None])[0] == (case.get('behaviour') or [None])[0])
             if same or 'pair' not in case:
                 rep.violate(v['key'], v['what'], v['case'])
         print('  impl :', real[:300])
